@@ -42,7 +42,7 @@ def violates(run, case, impl, model):
     # delivered twice, or a delivery goes elsewhere than the model's (exactly-once destination).
     return True
 
-LEVEL_TEXT = ("Proved for all op lists and all interleavings of the model: resolve_once, pipelined_exactly_once, client_idempotent (mu free, same proxy), mu_always_free; refuted on the as-found variants: client_idempotent (F11), no_stuck (resolve deadlock). Not proved: no_stuck and proxy_clients_resolved_and_released for the fixed model (correspondence only). Model tied to answer.go by synctest histories.")
-LEVEL_NOTE = "Join / joined chains are not modelled. Context cancellation not modelled. See docs/C11.md."
+LEVEL_TEXT = ("Proved for all op lists and all interleavings of the single-promise model: resolve_once, pipelined_exactly_once, client_idempotent (mu free, same proxy), no_stuck (deadlock freedom), waiters_released, result_read_alive; refuted on earlier code variants: client_idempotent (F11), no_stuck (resolve deadlock), result lifetime (withdrawn repair). Not proved: proxy_clients_resolved_and_released (correspondence only). Join / joined chains not modelled. Model tied to answer.go by synctest histories.")
+LEVEL_NOTE = "Level other: one stated theorem missing and Join (in the property quantifier) is not modelled. Context cancellation not modelled. See docs/C11.md."
 TECHNIQUE = "Coq proof over an executable small-step model + extracted-model/implementation differential run under synctest"
 DESIGN_REF = "DESIGN.md section 6, C11"
